@@ -74,26 +74,29 @@ def build(log):
 
 
 def check_props_file(pid):
-    """always recompile Props/<pid>.v: re-type-checks every property statement against the current Gen-dependent .vo files"""
-    vf = f'Props/{pid}.v'
-    out = {'file': vf, 'ok': False, 'theorems': [], 'assumptions': {}, 'log': ''}
-    if not os.path.exists(os.path.join(COQ, vf)):
+    """always recompile Props/<pid>.v and its continuation files Props/<pid>[a-z].v: re-type-checks every property statement
+    against the current Gen-dependent .vo files"""
+    files = [f'Props/{pid}.v'] + sorted(os.path.relpath(f, COQ) for f in glob.glob(os.path.join(COQ, 'Props', f'{pid}[a-z].v')))
+    out = {'file': files[0], 'files': files, 'ok': True, 'theorems': [], 'axioms': [], 'closed': 0, 'log': ''}
+    if not os.path.exists(os.path.join(COQ, files[0])):
         out['log'] = 'missing'
+        out['ok'] = False
         return out
-    src = open(os.path.join(COQ, vf)).read()
-    out['theorems'] = re.findall(r'^\s*(?:Theorem|Example)\s+(\w+)', src, re.M)
-    rc, log = sh(f'timeout 900 coqc -Q . SZ {vf} 2>&1', cwd=COQ)
-    out['log'] = log[-4000:]
-    out['ok'] = (rc == 0)
-    # Print Assumptions output: "Closed under the global context" or "Axioms:\n name : type ..."
-    if rc == 0:
+    for vf in files:
+        src = open(os.path.join(COQ, vf)).read()
+        out['theorems'] += re.findall(r'^\s*(?:Theorem|Example)\s+(\w+)', src, re.M)
+        rc, log = sh(f'timeout 1800 coqc -Q . SZ {vf} 2>&1', cwd=COQ)
+        if rc != 0:
+            out['ok'] = False
+            out['log'] += log[-4000:]
+            continue
+        # Print Assumptions output: "Closed under the global context" or "Axioms:\n name : type ..."
         blocks = re.split(r'(?=Closed under the global context|Axioms:)', log)
-        ax = []
         for b in blocks:
             if b.startswith('Axioms:'):
-                ax += re.findall(r'^(\S+)\s*:', b[len('Axioms:'):], re.M)
-        out['axioms'] = sorted(set(ax))
-        out['closed'] = log.count('Closed under the global context')
+                out['axioms'] += re.findall(r'^(\S+)\s*:', b[len('Axioms:'):], re.M)
+        out['closed'] += log.count('Closed under the global context')
+    out['axioms'] = sorted(set(out['axioms']))
     return out
 
 
@@ -145,7 +148,7 @@ def main():
     # -- proofs
     pr = check_props_file(pid)
     if not pr['ok']:
-        deps = coq_deps(f'Props/{pid}.v')
+        deps = sorted({d for vf in pr['files'] for d in coq_deps(vf)})
         failed_files = sorted({f for f, _ in b['coq_errors'] if f in deps})
         m = re.search(r'File "\./([^"]+)", line (\d+).*?\n(Error:.*?)(?:\n\n|\Z)', pr['log'], re.S)
         where = f'{m.group(1)}:{m.group(2)} {m.group(3)[:300]}' if m else pr['log'][-400:]
